@@ -3,6 +3,7 @@
   existing index is a no-op, conflicting creations fail, drops spare `_id_`.
 -/
 import Lungo.Proofs.IndexCat
+import Lungo.Proofs.SortLaws
 namespace Lungo
 
 variable {sch : SchemaEval}
@@ -129,5 +130,156 @@ theorem index_list_exact {c : Coll} {n : String} {i : Index} (hc : Coherent sch 
     | cons t r =>
       obtain ⟨k, hk, _⟩ := hi.complete sd hsd hb t (by rw [ht]; simp)
       exact ⟨k, hk⟩
+
+/-! ### `Index.list` is in key order -/
+
+theorem tuplesStep_length (d : Doc) (n : Nat) (acc : List (List V)) (col : Column)
+    (hacc : ∀ t ∈ acc, t.length = n) : ∀ t ∈ tuplesStep d acc col, t.length = n + 1 := by
+  intro t ht
+  simp only [tuplesStep, List.mem_flatMap, List.mem_map] at ht
+  obtain ⟨t0, ht0, x, _, rfl⟩ := ht
+  simp [hacc t0 ht0]
+
+theorem foldl_tuplesStep_length (d : Doc) : ∀ (cols : List Column) (n : Nat) (acc : List (List V)),
+    (∀ t ∈ acc, t.length = n) → ∀ t ∈ cols.foldl (tuplesStep d) acc, t.length = n + cols.length
+  | [], _, _, hacc => by simpa using hacc
+  | col :: r, n, acc, hacc => by
+    intro t ht
+    have := foldl_tuplesStep_length d r (n + 1) _ (tuplesStep_length d n acc col hacc) t ht
+    rw [this, List.length_cons]; omega
+
+/-- every key tuple has one component per column -/
+theorem tuples_length (cols : List Column) (d : Doc) : ∀ t ∈ tuples cols d, t.length = cols.length := by
+  intro t ht
+  rw [tuples_eq] at ht
+  have := foldl_tuplesStep_length d cols 0 [[]] (by intro t ht; simp at ht; subst ht; rfl) t ht
+  omega
+
+theorem keyLe_cons (col : Column) (cs : List Column) (x y : V) (r s : List V) :
+    keyLe (col :: cs) (x :: r) (y :: s) =
+      match dirOrd col.reverse (V.cmp x y) with
+      | .lt => true
+      | .gt => false
+      | .eq => keyLe cs r s := by
+  rw [keyLe]; rfl
+
+theorem keyLe_refl : ∀ (cols : List Column) (k : List V), keyLe cols k k = true
+  | [], _ => by simp [keyLe]
+  | _ :: _, [] => by simp [keyLe]
+  | col :: cs, x :: r => by
+    rw [keyLe_cons, V.cmp_refl]
+    have : dirOrd col.reverse .eq = .eq := by unfold dirOrd; split <;> rfl
+    rw [this]; exact keyLe_refl cs r
+
+theorem cmp_dir_laws (rev : Bool) (x y z : V) (ox : x.i64Ok = true) (oy : y.i64Ok = true)
+    (oz : z.i64Ok = true) :
+    Ord.Laws (dirOrd rev (V.cmp x x)) (dirOrd rev (V.cmp x y)) (dirOrd rev (V.cmp y x))
+      (dirOrd rev (V.cmp y z)) (dirOrd rev (V.cmp x z)) :=
+  Laws.dir rev (V.cmp_at x y z ox oy oz) (V.cmp_at z y x oz oy ox) (V.cmp_swap x z)
+
+theorem keyLe_trans : ∀ (cols : List Column) (a b c : List V), TupOk a → TupOk b → TupOk c →
+    a.length = cols.length → b.length = cols.length → c.length = cols.length →
+    keyLe cols a b = true → keyLe cols b c = true → keyLe cols a c = true
+  | [], _, _, _, _, _, _, _, _, _, _, _ => by simp [keyLe]
+  | _ :: _, [], _, _, _, _, _, h, _, _, _, _ => by simp at h
+  | _ :: _, _ :: _, [], _, _, _, _, _, h, _, _, _ => by simp at h
+  | _ :: _, _ :: _, _ :: _, [], _, _, _, _, _, h, _, _ => by simp at h
+  | col :: cs, x :: r, y :: s, z :: u, oa, ob, oc, la, lb, lc, h1, h2 => by
+    have L := cmp_dir_laws col.reverse x y z (oa x (by simp)) (ob y (by simp)) (oc z (by simp))
+    rw [keyLe_cons] at h1 h2 ⊢
+    have ih := keyLe_trans cs r s u (fun v hv => oa v (by simp [hv])) (fun v hv => ob v (by simp [hv]))
+      (fun v hv => oc v (by simp [hv])) (by simpa using la) (by simpa using lb) (by simpa using lc)
+    cases hab : dirOrd col.reverse (V.cmp x y) with
+    | gt => rw [hab] at h1; cases h1
+    | lt =>
+      cases hbd : dirOrd col.reverse (V.cmp y z) with
+      | gt => rw [hbd] at h2; cases h2
+      | lt => rw [L.lt_trans hab hbd]
+      | eq => rw [← L.congr_r hbd, hab]
+    | eq =>
+      rw [hab] at h1
+      rw [L.congr_l hab]
+      cases hbd : dirOrd col.reverse (V.cmp y z) with
+      | gt => rw [hbd] at h2; cases h2
+      | lt => rfl
+      | eq => rw [hbd] at h2; exact ih h1 h2
+
+theorem keyLe_total : ∀ (cols : List Column) (a b : List V),
+    (keyLe cols a b || keyLe cols b a) = true
+  | [], _, _ => by simp [keyLe]
+  | _ :: _, [], _ => by simp [keyLe]
+  | _ :: _, _ :: _, [] => by simp [keyLe]
+  | col :: cs, x :: r, y :: s => by
+    rw [keyLe_cons, keyLe_cons, V.cmp_swap x y]
+    have ih := keyLe_total cs r s
+    cases V.cmp x y <;> cases col.reverse <;> simp [dirOrd, Ordering.swap, ih]
+
+/-- the entries in the order of the btree scan -/
+def Index.scan (i : Index) : List (List V × Nat) :=
+  i.entries.mergeSort fun a b => keyLe i.columns a.1 b.1
+
+/-- keep the first entry of every document -/
+def firstsBy : List (List V × Nat) → List (List V × Nat)
+  | [] => []
+  | e :: r => e :: (firstsBy r).filter (·.2 != e.2)
+
+theorem firstsBy_ids : ∀ l : List (List V × Nat), (firstsBy l).map (·.2) = dedupIds (l.map (·.2))
+  | [] => rfl
+  | e :: r => by
+    rw [firstsBy, List.map_cons, List.map_cons, dedupIds, ← firstsBy_ids r, List.filter_map]
+    rfl
+
+theorem firstsBy_sublist : ∀ l : List (List V × Nat), (firstsBy l).Sublist l
+  | [] => .slnil
+  | e :: r => by
+    rw [firstsBy]
+    exact (List.filter_sublist.trans (firstsBy_sublist r)).cons_cons e
+
+theorem firstsBy_min {le : List V → List V → Bool} (hrefl : ∀ k, le k k = true) :
+    ∀ l : List (List V × Nat), l.Pairwise (fun a b => le a.1 b.1 = true) →
+      ∀ k id, (k, id) ∈ firstsBy l → ∀ k', (k', id) ∈ l → le k k' = true
+  | [], _, _, _, hm, _, _ => by simp [firstsBy] at hm
+  | e :: r, hp, k, id, hm, k', hm' => by
+    rw [List.pairwise_cons] at hp
+    rw [firstsBy, List.mem_cons] at hm
+    rcases hm with rfl | hm
+    · rcases List.mem_cons.mp hm' with h | h
+      · cases h; exact hrefl k
+      · exact hp.1 _ h
+    · obtain ⟨h1, h2⟩ := List.mem_filter.mp hm
+      have hne : id ≠ e.2 := by simpa using h2
+      rcases List.mem_cons.mp hm' with h | h
+      · subst h; exact absurd rfl hne
+      · exact firstsBy_min hrefl r hp.2 k id h1 k' h
+
+/-- the btree scan of a coherent index over well-formed documents is in key order -/
+theorem scan_sorted {c : Coll} {n : String} {i : Index} (hc : Coherent sch c)
+    (hm : (n, i) ∈ c.indexes) (hok : DocsOk c.docs) :
+    i.scan.Pairwise (fun a b => keyLe i.columns a.1 b.1 = true) := by
+  have hi := hc.2 n i hm
+  have hP : ∀ e ∈ i.entries, TupOk e.1 ∧ e.1.length = i.columns.length := by
+    intro ⟨k, id⟩ he
+    obtain ⟨x, hx, _, _, hk⟩ := hi.sound k id he
+    exact ⟨tuples_ok _ _ (hok x hx) k hk, tuples_length _ _ k hk⟩
+  exact pairwise_mergeSort_on (P := fun e : List V × Nat => TupOk e.1 ∧ e.1.length = i.columns.length)
+    (le := fun a b => keyLe i.columns a.1 b.1)
+    (fun a b c pa pb pc h1 h2 => keyLe_trans _ _ _ _ pa.1 pb.1 pc.1 pa.2 pb.2 pc.2 h1 h2)
+    (fun a b _ _ => keyLe_total _ _ _) i.entries hP
+
+/-- `Index.List()` is in key order: it is the identity projection of a sub-list `ks` of the entries
+    that is ascending by key, holds each listed document under its SMALLEST key, and lists every
+    document once -/
+theorem index_list_sorted {c : Coll} {n : String} {i : Index} (hc : Coherent sch c)
+    (hm : (n, i) ∈ c.indexes) (hok : DocsOk c.docs) :
+    ∃ ks : List (List V × Nat), ks.map (·.2) = i.list ∧ (∀ e ∈ ks, e ∈ i.entries) ∧
+      ks.Pairwise (fun a b => keyLe i.columns a.1 b.1 = true) ∧
+      ∀ k id, (k, id) ∈ ks → ∀ k', (k', id) ∈ i.entries → keyLe i.columns k k' = true := by
+  have hs := scan_sorted hc hm hok
+  refine ⟨firstsBy i.scan, firstsBy_ids _, ?_, List.Pairwise.sublist (firstsBy_sublist _) hs, ?_⟩
+  · intro e he
+    exact (List.mergeSort_perm _ _).mem_iff.mp ((firstsBy_sublist _).subset he)
+  · intro k id hk k' hk'
+    exact firstsBy_min (le := keyLe i.columns) (keyLe_refl _) _ hs k id hk k'
+      ((List.mergeSort_perm _ _).mem_iff.mpr hk')
 
 end Lungo
